@@ -61,6 +61,8 @@ def message_pool(remote_as, r=None):
         ('open_as4_only_in_cap', frame(1, struct.pack('!BHHIB', 4, 64999, 90, 0x0a000002, 8)
                                         + cap(65, struct.pack('!I', remote_as)))),
         # capabilities naming address families / values the agent has no name for: they are ignored, the OPEN stands
+        # ADD-PATH for IPv4 unicast, Send/Receive = both (a family and a value the agent does have names for)
+        ('open_addpath_ipv4', frame(1, open_body(remote_as, 90, caps=std_caps(remote_as) + cap(69, bytes([0, 1, 1, 3]))))),
         ('open_addpath_unknown_family', frame(1, open_body(remote_as, 90, caps=std_caps(remote_as) + cap(69, bytes([0, 1, 132, 3]))))),
         ('open_addpath_action0', frame(1, open_body(remote_as, 90, caps=std_caps(remote_as) + cap(69, bytes([0, 1, 1, 0, 0, 2, 1, 4]))))),
         ('open_llgr_extnh_unknown', frame(1, open_body(remote_as, 90, caps=std_caps(remote_as) + cap(71, bytes([0, 99, 9, 0, 0, 0, 10]) * 2)
@@ -77,6 +79,13 @@ def message_pool(remote_as, r=None):
         # a 2-octet-AS UPDATE as an OLD speaker's neighbour relays it: AS4_PATH (optional transitive, always 4-octet numbers)
         # in front of the AS_PATH with 2-octet numbers - the width of AS_PATH is the session's, whatever came before it
         ('update_as4path_first', frame(2, update_body(attrs=bytes.fromhex('40010100' 'c011060201' '0000fde9' '4002040201' 'fde9' '4003040a000001')))),
+        # AGGREGATOR in both widths (6 octets with a 2-octet AS, 8 with a 4-octet one): well-formed in exactly one session width
+        ('update_aggregator4', frame(2, update_body(attrs=bytes.fromhex('40010100' '4002060201' '0000fde9' '4003040a000001' 'c00708' '0000fde9' '0a000009')))),
+        ('update_aggregator2', frame(2, update_body(attrs=bytes.fromhex('40010100' '4002040201' 'fde9' '4003040a000001' 'c00706' 'fde9' '0a000009')))),
+        # attributes of length 0 where the RFC fixes a length (ORIGIN, NEXT_HOP), and a last attribute whose header is cut short
+        ('update_origin_len0', frame(2, update_body(attrs=bytes.fromhex('400100' '4002040201' 'fde9' '4003040a000001')))),
+        ('update_nexthop_len0', frame(2, update_body(attrs=bytes.fromhex('40010100' '4002040201' 'fde9' '400300')))),
+        ('update_attr_header_cut', frame(2, update_body(attrs=bytes.fromhex('40010100' '4002040201' 'fde9' '4003040a000001' '4004')))),
         ('update_eor', frame(2, update_body(nlri=b'', attrs=b''))),
         # MP_REACH_NLRI / MP_UNREACH_NLRI for an address family the agent has no name for (AFI 1, SAFI 132)
         ('update_mp_unknown_family', frame(2, update_body(nlri=b'', attrs=bytes.fromhex('40010100' '400200' '800e0b' '000184' '04' '0a000001' '00' '0102')))),
